@@ -336,7 +336,8 @@ struct Paths {
 fn paths(spec: &ExecSpec, wd: &WorkDir) -> Paths {
     Paths {
         input: wd.p("in.raw"),
-        out: wd.p("out.raw"),
+        // `@OUT:stdout@`: a destination FILE whose last path component is the word `stdout`
+        out: if spec.argv.iter().any(|a| a.contains("@OUT:stdout@")) { wd.p("o/stdout") } else { wd.p("out.raw") },
         stats: wd.p(&format!("stats.{}", spec.stats_ext)),
         checks: wd.p("checks.toml"),
         instats: wd.p(&format!("instats.{}", spec.input_stats_ext)),
@@ -348,6 +349,7 @@ fn subst(argv: &[String], p: &Paths) -> Vec<String> {
         .map(|a| {
             a.replace("@IN@", &p.input.to_string_lossy())
                 .replace("@OUT@", &p.out.to_string_lossy())
+                .replace("@OUT:stdout@", &p.out.to_string_lossy())
                 .replace("@STATS@", &p.stats.to_string_lossy())
                 .replace("@CHECKS@", &p.checks.to_string_lossy())
                 .replace("@INSTATS@", &p.instats.to_string_lossy())
@@ -359,6 +361,8 @@ fn subst(argv: &[String], p: &Paths) -> Vec<String> {
 pub fn exec(spec: &ExecSpec, wd: &WorkDir) -> ExecResult {
     let t0 = Instant::now();
     let p = paths(spec, wd);
+    let _ = std::fs::create_dir_all(wd.p("o"));
+    let _ = std::fs::remove_file(wd.p("o/stdout"));
     for f in [&p.input, &p.out, &p.stats, &p.checks, &p.instats] {
         let _ = std::fs::remove_file(f);
     }
